@@ -248,7 +248,10 @@ class Builder:
                 u = expm(1j * eps * (h + h.conj().T)) @ np.diag(np.exp(1j * g.uniform(0, 6.3, size=k)))
             self.last = ['unitary', m, k, seed, self.state(c)]
             arr = np.array(u)
-            un = self.lw.Unitary(arr if rng.random() < 0.8 else arr.tolist() if False else arr)
+            if rng.random() < 0.2:
+                un = self.lw.Unitary(arr, label=str(rng.choice(["U", "V", "a long label", "", "√X"])))
+            else:
+                un = self.lw.Unitary(arr)
             if rng.random() < 0.5:
                 arr[...] = 0           # ... and for the array a Unitary was built from
             c.add(un, self.F(m))
@@ -378,7 +381,15 @@ class Builder:
                     log.append(["add_refused", bad, type(e).__name__])
                     self.refused_adds = getattr(self, "refused_adds", 0) + 1
             self.last = ['add', sub_log, m, group, self.state(c)]
-            c.add(child, self.F(m), group)
+            if rng.random() < 0.25:
+                # the optional display name of the added circuit (shown on the group's box)
+                nm = [None, "G", "a rather long name for a small box", "φ-gate", "", "U2"][int(rng.integers(6))]
+                if rng.random() < 0.5:
+                    c.add(child, self.F(m), group, nm)
+                else:
+                    c.add(child, self.F(m), group=group, name=nm)
+            else:
+                c.add(child, self.F(m), group)
             log.append(["add", sub_log, m, group])
             self._note_forms(log)
             if len(self.children) < 6:
